@@ -79,6 +79,7 @@ type Machine struct {
 	harness   *Harness
 	mapOrderFork bool
 	inconclusive []string
+	nSampled     int // sampled (under-approximated) values on this path
 }
 
 type NondetRec struct {
